@@ -67,8 +67,10 @@ class Enc:
         if isinstance(x, np.ndarray):
             if x.ndim == 0: return self.val(x.item(), depth + 1)
             if x.ndim == 1: return "(VArr [%s])" % "; ".join(self.val(v, depth + 1) for v in x)
-            if x.ndim == 2: return "(VArr [%s])" % "; ".join("VList [%s]" % "; ".join(self.val(v, depth + 2) for v in row) for row in x)
-            raise ValueError("array rank %d" % x.ndim)
+            def rows(a, dd):
+                if a.ndim == 1: return "VList [%s]" % "; ".join(self.val(v, dd) for v in a)
+                return "VList [%s]" % "; ".join(rows(r, dd) for r in a)
+            return "(VArr [%s])" % "; ".join(rows(r, depth + 2) for r in x)
         if isinstance(x, list): return "(VList [%s])" % "; ".join(self.val(v, depth + 1) for v in x)
         if isinstance(x, tuple): return "(VTuple [%s])" % "; ".join(self.val(v, depth + 1) for v in x)
         if isinstance(x, dict): return "(VDict [%s])" % "; ".join("(%s, %s)" % (self.val(k, depth + 1), self.val(v, depth + 1)) for k, v in x.items())
@@ -83,6 +85,15 @@ class Enc:
 
 
 CONSTS = {"const.c": 299792458.0}
+
+
+def snap(x):
+    """copy of the containers (arrays, lists, tuples, dicts) of a value at call time: the caller may mutate them in place afterwards"""
+    if isinstance(x, np.ndarray) and not type(x).__module__.startswith("astropy"): return x.copy()
+    if isinstance(x, list): return [snap(v) for v in x]
+    if isinstance(x, tuple) and type(x) is tuple: return tuple(snap(v) for v in x)
+    if isinstance(x, dict): return {k: snap(v) for k, v in x.items()}
+    return x
 
 
 class Proxy(object):
@@ -102,12 +113,12 @@ class Proxy(object):
             finally:
                 EXTERNAL[0] -= 1
             if EXTERNAL[0] > 0: return r
-            self._px_log.append(("%s.%s" % (self._px_name, a), list(args) + list(kw.values()), r, "<proxy:%s>" % self._px_name, a))
+            self._px_log.append(("%s.%s" % (self._px_name, a), snap(list(args) + list(kw.values())), snap(r), "<proxy:%s>" % self._px_name, a))
             return r
         return call
     def __call__(self, *args, **kw):
         r = self._px_obj(*args, **kw)
-        self._px_log.append(("%s.__call__" % self._px_name, list(args) + list(kw.values()), r, "<proxy:%s>" % self._px_name, "__call__"))
+        self._px_log.append(("%s.__call__" % self._px_name, snap(list(args) + list(kw.values())), snap(r), "<proxy:%s>" % self._px_name, "__call__"))
         return r
 
 
@@ -128,7 +139,7 @@ class FunPatch:
                 finally:
                     EXTERNAL[0] -= 1
                 if EXTERNAL[0] > 0: return r      # nested inside another replayed call: invisible to PySem
-                self.log.append((__tag, list(args) + list(kw.values()), r, __c, __a))
+                self.log.append((__tag, snap(list(args) + list(kw.values())), snap(r), __c, __a))
                 return r
             setattr(owner, attr, mwrap)
         for tag, owner, attr in self.specs:
@@ -142,7 +153,7 @@ class FunPatch:
                     EXTERNAL[0] -= 1
                 fr = sys._getframe(1)
                 if EXTERNAL[0] == 0 and "hierarc" in fr.f_code.co_filename:
-                    self.log.append((__tag, list(args) + list(kw.values()), r, None, None))
+                    self.log.append((__tag, snap(list(args) + list(kw.values())), snap(r), None, None))
                 return r
             setattr(owner, attr, wrap)
         return self
@@ -195,6 +206,7 @@ def build_fenv(items, enc_classes, extra_globals=()):
             gt.append("(%s, CFun %s)" % (q(fn), src_name(None, fn)))
         elif fn == "__init__":
             gt.append("(%s, CClass %s %s)" % (q(cls), q(cls), src_name(cls, fn)))
+            gt.append("(%s, CFun %s)" % (q(cls + ".__init__"), src_name(cls, fn)))        # Base.__init__(self, ...)
     # module-level constants of the spec's modules (lists of names, numbers): looked up as zero-argument oracles
     seen = set()
     enc = Enc()
